@@ -6,6 +6,7 @@ from ..typestate import ReleaseRule
 from ..rules import Must, call_matcher
 
 ID = "C07"
+ANCHORS = 'deep_lift_shap._register_hooks,deep_lift_shap._clear_hooks,predict.predict'.split(",")
 MIN_INSTANCES = 20
 EXPLANATION = (
     "R-RELEASE (typestate): in deep_lift_shap the hook resource acquired by model.apply(<registrar>) must be released "
